@@ -451,3 +451,11 @@ Definition extract (hdr : option bytes) : option bag :=
   | Some [] => None
   | Some s => parse s
   end.
+
+(** Extract on a context that already carries a baggage: ContextWithBaggage REPLACES it by the
+    parsed one; an absent / empty / invalid header leaves the context as it is (second component). *)
+Definition extract_into (parent : bag) (hdr : option bytes) : bag * bool :=
+  match extract hdr with
+  | Some b => (b, false)
+  | None => (parent, true)
+  end.
